@@ -1,4 +1,5 @@
 import OxiModel.GeomProofs
+import OxiModel.ScanProofs
 /-
   C18 — Adam7 geometry is exact for every image size (sizes and row lengths).
 -/
@@ -55,6 +56,30 @@ theorem pass_areas_partition (w h : Nat) :
     _ = w * ((h + 1) / 2 + h / 2) := by
             rw [hc3, Nat.mul_add]
     _ = w * h := by rw [hr3]
+
+/-- **The scan-line iterator yields exactly the specification's rows**: for every width ≥ 1, height ≥ 1
+    and pixel size ≥ 1 bit, in both layouts, with or without filter bytes, iterating over data of the
+    header-implied size produces, pass by pass, `Spec.passDims` rows of `⌈width·bpp/8⌉` bytes with
+    their pass number and pixel count — empty passes omitted — and nothing else. (Proof: an
+    invariant on the iterator state per pass, the small-image skip conditions shown to coincide with
+    "pass empty", induction on the rows remaining in a pass; no bound on the dimensions.) -/
+theorem iterator_is_spec (w h bpp : Nat) (il hf : Bool) (hw : 1 ≤ w) (hh : 1 ≤ h) (hb : 1 ≤ bpp) :
+    scanLines w h bpp il hf (Spec.dataSize w h bpp il hf) = some (Spec.lineLens w h bpp il hf) := by
+  cases il
+  · exact scanLines_progressive_is_spec w h bpp hf hw hb
+  · exact scanLines_interlaced_is_spec w h bpp hf hw hh hb
+
+/-- in particular the iterator never hits `unreachable!()` and never yields an empty line on
+    well-sized data: it terminates with a list -/
+theorem iterator_total (w h bpp : Nat) (il hf : Bool) (hw : 1 ≤ w) (hh : 1 ≤ h) (hb : 1 ≤ bpp) :
+    (scanLines w h bpp il hf (Spec.dataSize w h bpp il hf)).isSome = true := by
+  rw [iterator_is_spec w h bpp il hf hw hh hb]; rfl
+
+/-- and with filter bytes the data it walks is exactly `raw_data_size` bytes long -/
+theorem iterator_consumes_raw_data_size (w h bpp : Nat) (il : Bool) (hw : 1 ≤ w) (hh : 1 ≤ h) (hb : 1 ≤ bpp) :
+    scanLines w h bpp il true (rawDataSize w h bpp il) = some (Spec.lineLens w h bpp il true) := by
+  rw [rawDataSize_is_spec w h bpp il hw]
+  exact iterator_is_spec w h bpp il true hw hh hb
 
 /-- Non-vacuity / sanity: a 5x5 gray-8 interlaced image has 36 bytes of filtered data. -/
 example : rawDataSize 5 5 8 true = 36 ∧ Spec.dataSize 5 5 8 true true = 36 := by decide
